@@ -286,6 +286,26 @@ def run(fx, rep):
     from .report import producer_rules
     producer_rules(fx, rep, 'producer rule: the parser builds arithmetic and unary-minus nodes from their own children with the operator the source shows, and never folds or regroups them (C04 R3/R5/R7/R9)', [('c04', 'C04', '^(R3/visit_calc/|R3/visit_Negate/|R5/|R7/visit_(calc|Negate)/|R9/|R3/find_operator/|R3/token-literal/)')], 15)
     core(fx, rep, 'cel_interpreter::objects::Value', 'cel_interpreter::objects::Value::resolve', 'cel_interpreter::ExecutionError')
+    # ---------------- R5 every successful result comes out of an operand-pair arm
+    rep.rule('R5', 'a successful arithmetic result is computed from both operands inside a same-kind arm; no operand is handed back as the result')
+    for tr in ('Add', 'Sub', 'Mul', 'Div', 'Rem'):
+        ab = find_impl_body(fx, 'std::ops::' + tr, 'cel_interpreter::objects::Value')
+        apv = F.Prov(ab)
+        bad5 = []
+        nret = 0
+        for _, ts in apv.per_def(0):
+            for r in ts:
+                if not (r[0] == 'agg' and r[1].endswith('Result::Ok')):
+                    continue
+                nret += 1
+                inner = r[2][0] if r[2] else None
+                if inner is not None and inner[0] == 'param':
+                    bad5.append('Ok(operand %d)' % inner[1])
+                elif inner is not None and inner[0] == 'agg' and inner[1].rsplit('::', 1)[-1] in ('Int', 'UInt', 'Float') and not (
+                        F.term_contains(r, lambda y: y == ('param', 1)) and F.term_contains(r, lambda y: y == ('param', 2))):
+                    bad5.append(F.term_str(r)[:60])
+        rep.check(not bad5, 'R5', '%s/result-from-both-operands' % tr.lower(), ab.loc(), '%d Ok result shapes, each built from both operands' % nret,
+                  'impl %s for Value returns %s: an identity/fast path bypasses the kind check, so mixed operands (7u + 0) are not an error any more' % (tr, bad5))
     rep.floor('R1', 10, '(10 checked_* call sites)')
     rep.floor('R2', 20)
     rep.floor('R3', 2)
